@@ -77,7 +77,9 @@ class NodeWorld(World):
                 if len(entry) > 2 and entry[2] == 'unnamed':
                     # "use the session that is there": no next hop named
                     del raw['next_nodeid']
-                routes.append(cfgmod.TxRouteItem(eid_pattern=re.compile(pat), next_nodeid='dtn://n%d/' % nxt, cl_type='tcpcl', raw_config=raw))
+                # (a number as third element: the MTU the operator configured for this route)
+                mtu = entry[2] if len(entry) > 2 and isinstance(entry[2], int) else None
+                routes.append(cfgmod.TxRouteItem(eid_pattern=re.compile(pat), next_nodeid='dtn://n%d/' % nxt, cl_type='tcpcl', mtu=mtu, raw_config=raw))
             bcfg = cfgmod.Config(node_id='dtn://n%d/' % i,
                                  rx_route_table=[cfgmod.RxRouteItem(eid_pattern=re.compile('^dtn://n%d/.*' % i), action='deliver'),
                                                  cfgmod.RxRouteItem(eid_pattern=re.compile('.*'), action='forward')],
